@@ -216,3 +216,51 @@ func staticReach(roots ...*ssa.Function) map[*ssa.Function]bool {
 	}
 	return seen
 }
+
+// checkPersistUnderLock: in the methods of one repository type, every persisting call selected by
+// isPersist (a storage write, or a helper that writes) is made while a lock rooted at the receiver
+// is held. Serialising a snapshot under the lock and writing it after releasing it lets a slower
+// writer overwrite a newer state with an older one (the in-memory state and the stored state then
+// disagree after a restart).
+func checkPersistUnderLock(p *load.Program, r *kit.Report, rule, pkg, typ string, isPersist func(c ssa.CallInstruction) string, floor int) {
+	k := newKeyer()
+	n := 0
+	for _, f := range pkgFuncs(p, pkg) {
+		if f.Signature.Recv() == nil || len(f.Params) == 0 || !strings.HasSuffix(strings.TrimPrefix(f.Signature.Recv().Type().String(), "*"), "."+typ) {
+			continue
+		}
+		if strings.HasSuffix(p.FileOf(f.Pos()), "_test.go") || strings.Contains(p.FileOf(f.Pos()), "test_helpers") {
+			continue
+		}
+		var li *kit.LockInfo
+		recv := f.Params[0].Name()
+		kit.AllInstrs(f, func(in ssa.Instruction) {
+			c, ok := in.(ssa.CallInstruction)
+			if !ok {
+				return
+			}
+			what := isPersist(c)
+			if what == "" {
+				return
+			}
+			if li == nil {
+				li = kit.Lockset(f, entryLocks(p)[f])
+			}
+			if !li.Reached(in) {
+				return
+			}
+			n++
+			held := li.HeldAt(in)
+			ok2 := strings.Contains(held, "{"+recv+".") || strings.Contains(held, ","+recv+".")
+			key := k.key(kit.ShortID(kit.FuncID(f)) + "/" + what)
+			if ok2 {
+				r.OK(rule, key, posOf(p, in), "made with %s held", held)
+			} else {
+				r.Bad(rule, key, posOf(p, in), "%s is written to storage here without the %s lock held (held: %s): a snapshot taken under the lock and written after releasing it can overwrite a newer state that a concurrent caller has already persisted", what, typ, held)
+			}
+		})
+	}
+	if n < floor {
+		r.Unknown(rule, typ+"/persist-sites", "-", "expected at least %d persisting calls in methods of %s, found %d", floor, typ, n)
+	}
+}
